@@ -331,11 +331,16 @@ func (r *Router) addNIC(nic NIC) error {
 		ips = append(ips, ip)
 	}
 
+	// Check every address before registering any: a NIC that is refused because
+	// of one address must not stay registered under its other addresses (a chunk
+	// routed to one of those would reach a NIC that was never set up).
 	for _, ip := range ips {
 		if !r.ipv4Net.Contains(ip) {
 			return fmt.Errorf("%w: %s", errStaticIPisBeyondSubnet, r.ipv4Net.String())
 		}
+	}
 
+	for _, ip := range ips {
 		ifc.AddAddress(&net.IPNet{
 			IP:   ip,
 			Mask: r.ipv4Net.Mask,
